@@ -108,6 +108,7 @@ type Job struct {
 	mbMu    sync.Mutex
 	mbCount map[string]int
 
+	NoNative bool            // harness cannot be replayed in-process (it runs main()); its obligations are evaluated and replayed by the property's Post hook
 	cutSet   map[string]bool // functions observed as events (not executed)
 	snapshot []string        // globals recorded at every cut call
 }
